@@ -117,6 +117,8 @@ func (c *Config) GetKpasswdServers(realm string, tcp bool) (int, map[int]string,
 
 func randServOrder(ks []string) map[int]string {
 	kdcs := make(map[int]string)
+	// Work on a copy: the slice passed in belongs to the configuration and may be in use by other goroutines
+	ks = append([]string(nil), ks...)
 	count := len(ks)
 	i := 1
 	if count > 1 {
